@@ -427,6 +427,11 @@ func c13Scripts(c *vctx) []c13Script {
 		// the same on an object-store-like backend (Remove of a missing file succeeds)
 		{Kind: "ext-remove-during-forced-idem", FailFrom: iv + iv/2, FailUntil: iv + R - 50000, SlowFrom: -1, RemoveAt: iv + R + 100, RemoveOldOnly: true, IdemRemove: true, UnlockAt: -1, End: 70 * min},
 		{Kind: "ext-remove-idem", FailFrom: -1, FailUntil: -1, SlowFrom: -1, RemoveAt: 1000000, IdemRemove: true, UnlockAt: 40 * min, End: 70 * min},
+		// a slow but successful refresh (monitor's clock lags the lock timestamp by 250 s), then failures past
+		// R counted from the lock timestamp, the lock file removed by somebody else, recovery before the monitor's
+		// deadline: the next refresh tick must be skipped (lock too old) and the forced refresh must cancel
+		{Kind: "late-recovery-removed", FailFrom: iv + 260000, FailUntil: iv + R + 50000, SlowFrom: iv - 1000, SlowDur: 250000, RemoveAt: iv + R + 100000, IdemRemove: true, UnlockAt: -1, End: 70 * min},
+		{Kind: "late-recovery", FailFrom: iv + 260000, FailUntil: iv + R + 50000, SlowFrom: iv - 1000, SlowDur: 250000, RemoveAt: -1, IdemRemove: true, UnlockAt: -1, End: 70 * min},
 		{Kind: "ext-remove", FailFrom: -1, FailUntil: -1, SlowFrom: -1, RemoveAt: 1000000, UnlockAt: 40 * min, End: 70 * min},
 		{Kind: "op-delay", FailFrom: 3*iv + 1, FailUntil: -1, SlowFrom: -1, OpDelay: 20000, RemoveAt: -1, UnlockAt: -1, End: 70 * min},
 		{Kind: "transient", FailFrom: 2*iv - 1000, FailUntil: 2*iv + 40000, SlowFrom: -1, RemoveAt: -1, UnlockAt: 30 * min, End: 70 * min, Transient: true},
@@ -462,7 +467,7 @@ func c13Scripts(c *vctx) []c13Script {
 
 func c13Emit(c *vctx, o c13Obs) {
 	if o.Err != "" {
-		c.Case("error", false, 1, "mkCase (mkCfg 1 1 0 false) 0 [Tick (-1)] true [] 0 [] [] []", o.Err)
+		c.Case("error", false, 1, "mkCase (mkCfg 1 1 0 false) 0 [Tick (-1)] true [] 0 [] [] [] []", o.Err)
 		return
 	}
 	R := c13Refreshability.Milliseconds()
@@ -471,6 +476,8 @@ func c13Emit(c *vctx, o c13Obs) {
 	var forcedAfterRemoval []string
 	var forcedOkHasFile []string
 	var forcedOkOldExisted []string
+	var regularInTime []string
+	lastGood := -o.Acq // timestamp in the last successfully written lock file
 	listsInFreeze, removedBeforeCheck2 := 0, false
 	D := o.Acq
 	upd := func(d int64) {
@@ -514,6 +521,7 @@ func c13Emit(c *vctx, o c13Obs) {
 				fsave = ev.T
 			} else {
 				rstart = ev.T
+				regularInTime = append(regularInTime, coqBool(ev.T-lastGood <= R))
 				tr = append(tr, "[RStart "+coqZ(ev.T)+"]")
 			}
 		case "save-fail":
@@ -541,6 +549,7 @@ func c13Emit(c *vctx, o c13Obs) {
 				// refresh() returned; success unless the removal of the old file failed
 				// (own file count did not drop: treated as success by the timeline only if a file vanished)
 				tr = append(tr, "[REndOk "+coqZ(ev.T)+"]")
+				lastGood = rstart
 				upd(ev.T - rstart)
 				if !c13IsPatched() && ev.T-mon >= R && ev.T/1000*1000 >= mon+R {
 					wedge = true
@@ -569,6 +578,7 @@ func c13Emit(c *vctx, o c13Obs) {
 					tc = ev.T
 				}
 				tr = append(tr, fmt.Sprintf("[ForcedOk %s %s]", coqZ(ev.T), coqZ(tc)))
+				lastGood = tc
 				mon = ev.T
 			} else {
 				tr = append(tr, "[ForcedFail "+coqZ(ev.T)+"]")
@@ -612,8 +622,8 @@ func c13Emit(c *vctx, o c13Obs) {
 	if len(tr) > 0 {
 		trace = "(" + strings.Join(tr, " ++ ") + ")"
 	}
-	term := fmt.Sprintf("mkCase (mkCfg ParamsC13.refreshability_timeout_ms (poll_of ParamsC13.refresh_interval_ms) %s %s) %s %s %s %s %s %s %s %s",
-		coqZ(D), coqBool(c13IsPatched()), coqZ(o.Acq), trace, coqBool(aliveEnd), coqList(samples), coqZ(int64(left)), coqList(forcedAfterRemoval), coqList(forcedOkHasFile), coqList(forcedOkOldExisted))
+	term := fmt.Sprintf("mkCase (mkCfg ParamsC13.refreshability_timeout_ms (poll_of ParamsC13.refresh_interval_ms) %s %s) %s %s %s %s %s %s %s %s %s",
+		coqZ(D), coqBool(c13IsPatched()), coqZ(o.Acq), trace, coqBool(aliveEnd), coqList(samples), coqZ(int64(left)), coqList(forcedAfterRemoval), coqList(forcedOkHasFile), coqList(forcedOkOldExisted), coqList(regularInTime))
 	sb, _ := json.Marshal(o.Script)
 	c.Hist("kind=" + kind)
 	c.Case(kind, len(o.Events) > 8, len(o.Events), term, fmt.Sprintf("script=%s D=%dms -> %s", string(sb), D, strings.Join(hs, " ")))
